@@ -12,13 +12,17 @@ use super::context::print_preset_info;
 #[must_use]
 pub fn run_config(args: &crate::cli::ConfigArgs, cli: &Cli) -> i32 {
     match &args.action {
-        ConfigAction::Validate { config } => run_config_validate(config),
+        ConfigAction::Validate { config } => run_config_validate(config, cli),
         ConfigAction::Show { config, format } => run_config_show(config.as_deref(), *format, cli),
     }
 }
 
-fn run_config_validate(config_path: &Path) -> i32 {
-    match run_config_validate_impl(config_path) {
+fn run_config_validate(config_path: &Path, cli: &Cli) -> i32 {
+    match run_config_validate_with(
+        config_path,
+        cli.no_extends,
+        FetchPolicy::from_cli(cli.extends_policy),
+    ) {
         Ok(()) => {
             println!("Configuration is valid: {}", config_path.display());
             EXIT_SUCCESS
@@ -35,17 +39,28 @@ fn run_config_validate(config_path: &Path) -> i32 {
     }
 }
 
+/// Validates a configuration file with the default flags (extends resolved, normal fetch policy).
+#[cfg(test)]
+pub(crate) fn run_config_validate_impl(config_path: &Path) -> Result<()> {
+    run_config_validate_with(config_path, false, FetchPolicy::Normal)
+}
+
 /// Validates a configuration file.
 ///
 /// Three-phase validation:
 /// 1. Direct TOML parse - catches syntax errors with detailed error messages
-/// 2. Full load with extends - validates inheritance chain and semantics
+/// 2. Full load with extends - validates inheritance chain and semantics, honouring the
+///    global `--no-extends` and `--extends-policy` flags like every other command
 /// 3. Checker construction - the same validation `check` performs before scanning
 ///
 /// # Errors
 /// Returns an error if the file doesn't exist, contains invalid TOML,
 /// extends resolution fails, or has semantic errors.
-pub(crate) fn run_config_validate_impl(config_path: &Path) -> Result<()> {
+pub(crate) fn run_config_validate_with(
+    config_path: &Path,
+    no_extends: bool,
+    extends_policy: FetchPolicy,
+) -> Result<()> {
     if !config_path.exists() {
         return Err(SlocGuardError::Config(format!(
             "Configuration file not found: {}",
@@ -58,7 +73,7 @@ pub(crate) fn run_config_validate_impl(config_path: &Path) -> Result<()> {
     let _: Config = toml::from_str(&content)?;
 
     // Phase 2: Full load with extends chain and semantic validation
-    let loaded = super::context::load_config(Some(config_path), false, false, FetchPolicy::Normal)?;
+    let loaded = super::context::load_config(Some(config_path), false, no_extends, extends_policy)?;
 
     // Phase 3: Build the checkers exactly as `check` does, so that limits, sibling rules,
     // allow/deny mixing, rule globs and naming regexes are validated here too
